@@ -57,7 +57,23 @@ PROGRAMS = [
 ]
 
 
+# configuration read from the environment at import time (child interpreters): very narrow wrap widths and a tab character as the tab
+ENVS = [{"DOCTRANS_LINE_LENGTH": "20"}, {"DOCTRANS_LINE_LENGTH": "1"}, {"DOCTRANS_TAB": "\t", "DOCTRANS_LINE_LENGTH": "60"}]
+
+
+def _env_cases():
+    """the emitter family (whitespace alphabet), the prose family (first token) and the doctrans programs, run again under each environment"""
+    out = [dict(kind="emit", header=h, pdoc=d) for (hk, h), (dk, d) in itertools.product(WS, WS)]
+    out += [dict(kind="prose_block", prefix=[i], maxlen=1) for i in range(len(PROSE))]
+    out += [dict(kind="doctrans", program=name, style=style, type_annotations=ta) for name, _ in PROGRAMS for style in ("rest", "google", "numpydoc") for ta in (True, False)]
+    return out
+
+
 def cases(tier, seed):
+    n_env = len(_env_cases())
+    for ei in range(len(ENVS)):
+        for lo in range(0, n_env, 12):
+            yield dict(kind="env_block", env=ei, lo=lo, hi=lo + 12)
     b = _bounds(tier)
     n = b["n_tokens"]
     # (a) docstring token strings, sharded by first token
@@ -118,6 +134,12 @@ def _check_call(kind, size, f, *a, **kw):
 
 
 def run(case):
+    from mc import core
+
+    if case.get("kind") == "env_block":
+        return core.run_env_block("mc.checks.c11", _env_cases()[case["lo"]: case["hi"]], ENVS[case["env"]], case["env"])
+    if "env" in case:
+        return core.run_env_case("mc.checks.c11", case, ENVS)
     import cdd.docstring.emit
     import cdd.shared.docstring_parsers
     import cdd.shared.docstring_utils
